@@ -512,6 +512,11 @@ def write_evidence(prop, tier, seed, hs, results, verdicts, wall, violations, kn
     }
     with open(os.path.join(EVIDENCE_DIR, f"{prop}.json"), "w") as f:
         json.dump(ev, f, indent=1)
+    if tier == "thorough":
+        # evidence/<id>.json is rewritten by every run; keep the last thorough run next to it as well
+        os.makedirs(os.path.join(EVIDENCE_DIR, "thorough"), exist_ok=True)
+        with open(os.path.join(EVIDENCE_DIR, "thorough", f"{prop}.json"), "w") as f:
+            json.dump(ev, f, indent=1)
 
 
 def assumptions_for(h):
@@ -749,7 +754,7 @@ def main():
     wall = time.time() - t0
     for l in dict.fromkeys(known_lines):
         print(l)
-    for l in out_lines:
+    for l in dict.fromkeys(out_lines):
         print(l)
     if not a.harness and not os.environ.get("VERIF_NO_EVIDENCE"):
         write_evidence(prop, a.tier, seed, hs, results, verdicts, wall, nviol, list(dict.fromkeys(known_lines)))
